@@ -30,6 +30,9 @@ FLOORS = {"quick": {"requests_modelled": 2000, "price_cells_checked": 25000, "fl
                     "flag:table_omits_station": 45, "flag:finer_than_search": 40}, "thorough": {"requests_modelled": 100000}}
 
 
+FRACTIONS = st.sampled_from(["", "", ".5", ".900", ".499999", ".999", ".001"])
+
+
 @st.composite
 def st_case(draw) -> Dict[str, Any]:
     start = draw(st.sampled_from([0, 0, 100, 3600 * 5 + 7, 86400 - 300]))
@@ -52,12 +55,18 @@ def st_case(draw) -> Dict[str, Any]:
     for j in range(draw(st.integers(0, 25))):
         t += draw(st.sampled_from([0, 0, 0, 1, max(dt - 1, 0), dt, dt + 1, 2 * dt + 3, draw(st.integers(0, 3 * dt))]))
         iso = draw(st.booleans())
+        # ISO stamps may carry a sub-second part (what pandas writes for datetime columns). The clock counts whole seconds: a
+        # stamp names the second it falls in. For admission and prices that is the same as comparing the exact stamp with the
+        # (whole-second) step starts; for expiry the two readings differ only when second + timeout is itself a step start,
+        # and those rows keep whole-second stamps (counted nowhere: excluded by construction).
+        frac = draw(FRACTIONS) if iso and (t + timeout - start) % dt != 0 else ""
         reqs.append({"id": f"r{j}", "o": draw(site), "d": draw(site), "t": t, "pax": 1, "fleet": None,
-                     "t_text": datetime.datetime.utcfromtimestamp(t).strftime("%Y-%m-%dT%H:%M:%S") if iso else str(t)})
+                     "t_text": (datetime.datetime.utcfromtimestamp(t).strftime("%Y-%m-%dT%H:%M:%S") + frac) if iso else str(t)})
     # prices
     prices = None
     price_key = "station_id"
     key_res = None
+    price_text: Dict[str, str] = {}
     if draw(st.sampled_from([True, True, True, False])):
         price_key = draw(st.sampled_from(["station_id", "geoid", "geoid"]))
         if price_key == "geoid":
@@ -65,10 +74,13 @@ def st_case(draw) -> Dict[str, Any]:
         keys = st.integers(0, 5)  # index: stations 0..3 (mod), 4-5: unknown station / empty region
         tp = max(0, start - draw(st.sampled_from([0, 0, 5, 2 * dt])))
         prices = []
-        for _ in range(draw(st.integers(1, 14))):
-            tp += draw(st.sampled_from([0, 0, 1, dt, dt + 1, 3 * dt]))
-            prices.append([tp, draw(keys), draw(st.sampled_from(ALL_PLUGS + ["NOPE"])), draw(st.sampled_from([0.0, 0.05, 0.3, 0.6, 2.5]))])
-    return {"start": start, "dt": dt, "timeout": timeout, "nsteps": nsteps, "res": res, "sites": sites, "stations": stations, "vehicles": vehicles,
+        price_iso = draw(st.sampled_from([False, False, True]))
+        for i in range(draw(st.integers(1, 14))):
+            tp += draw(st.sampled_from([0, 0, 1, dt - 1, dt, dt + 1, 3 * dt]))
+            prices.append([tp, draw(keys), draw(st.sampled_from(ALL_PLUGS + ["NOPE"])), draw(st.sampled_from([0.0, 0.05, 0.3, 0.6, 2.5, -0.1]))])
+            if price_iso:
+                price_text[str(i)] = datetime.datetime.utcfromtimestamp(tp).strftime("%Y-%m-%dT%H:%M:%S") + draw(FRACTIONS)
+    return {"price_time_text": price_text or None, "start": start, "dt": dt, "timeout": timeout, "nsteps": nsteps, "res": res, "sites": sites, "stations": stations, "vehicles": vehicles,
             "requests": reqs, "prices": prices, "price_key": price_key, "key_res": key_res, "lazy": draw(st.booleans()), "builtin": draw(st.booleans())}
 
 
@@ -95,7 +107,7 @@ def _world(case) -> Dict[str, Any]:
                 "sim_h3_search_resolution": case["res"], "end_time": case["start"] + case["dt"] * (case["nsteps"] + 5)},
         "dispatcher": {"max_search_radius_km": 5.0}, "fleet_ids": [], "vehicles": case["vehicles"], "stations": case["stations"],
         "bases": [{"id": "b1", "site": 0, "stalls": 2, "station": None, "fleets": []}], "requests": case["requests"], "schedules": [],
-        "prices": prices, "price_key": case["price_key"], "rate": None, "lazy": case["lazy"],
+        "prices": prices, "price_key": case["price_key"], "rate": None, "lazy": case["lazy"], "price_time_text": case.get("price_time_text"),
     }
 
 
@@ -242,7 +254,7 @@ def nshards(tier):
 
 def shard(tier, seed, idx) -> ShardResult:
     res = ShardResult()
-    comp.run(PROP, st_case(), check_case, _nontrivial, res, cases=150 if tier == "quick" else 8000, seed=seed * 1000 + idx, kind="component")
+    comp.run(PROP, st_case(), check_case, _nontrivial, res, cases=400 if tier == "quick" else 10000, seed=seed * 1000 + idx, kind="component")
     return res
 
 
